@@ -7,6 +7,7 @@ let () =
   | _ :: "async" :: _ -> M_async.run ()
   | _ :: "asyncw" :: _ -> M_asyncw.run ()
   | _ :: "genlife" :: _ -> M_genlife.run ()
+  | _ :: "streamq" :: _ -> M_streamq.run ()
   | _ :: "cexec" :: _ -> M_cexec.run ()
   | _ :: "crun" :: _ -> M_crun.run ()
   | _ :: "cchan" :: _ -> M_cchan.run ()
